@@ -136,6 +136,10 @@ def par_jobs(check, part, cfg):
             for j in range(1, k + 1):
                 m = C.mix64(seed ^ j)
                 yield ("run", {"seed": seed, "sched": j, "policy": 1 + (m & 1), "nprocs": sizes[(m >> 1) % len(sizes)], "spurious": [0, 20, 60][(m >> 8) % 3], "expect": h, "prop": "C20"}, None)
+            # two caller threads, each with a network of its own, run the history at the same time (process-wide state in the library)
+            for j in range(k + 1, k + (3 if check.tier == "quick" else 7)):
+                m = C.mix64(seed ^ j)
+                yield ("run", {"seed": seed, "sched": j, "policy": 1 + (m & 1), "nprocs": [1, 2, 3, 4][(m >> 1) % 4], "spurious": [0, 20][(m >> 8) % 2], "clients": 2, "expect": h, "prop": "C20"}, None)
     finally:
         seq.close()
 
